@@ -66,12 +66,14 @@ fn c01_rebuild_callsite_interest_bounded() {
     assert!(ASKED[2][0].load(AO::SeqCst) == live[2] as usize, "C01.rebuild_callsite_interest.collector2_asked_once_iff_live");
 }
 
-// BOUND: 3 registrars x 2 callsites, arbitrary prior cache bytes and prior MAX_LEVEL
+// TIER: thorough
+// NOTE: 775 s / 17 GB measured; the quick tier relies on c01_rebuild_callsite_interest_bounded + the Verus lemmas
+// BOUND: 2 registrars (each live or dropped) x 2 callsites, arbitrary prior cache bytes and prior MAX_LEVEL
 #[kani::proof]
-#[kani::unwind(5)]
+#[kani::unwind(4)]
 #[kani::stub(core::fmt::Formatter::pad, pad_stub)]
 fn c01_rebuild_interest_bounded() {
-    let ans = any_answers(); let live: [bool; 3] = nd(); let (hints, hk) = any_hints();
+    let ans = any_answers(); let live: [bool; 2] = nd(); let (hints, hk) = any_hints();
     let p0: u8 = nd(); let p1: u8 = nd();
     CS0.seen.store(p0, AO::SeqCst); CS1.seen.store(p1, AO::SeqCst);
     let (prior_max, _) = any_filter();
@@ -80,22 +82,22 @@ fn c01_rebuild_interest_bounded() {
     static R1: Registration = Registration::new(&CS1);
     let list: Callsites = LinkedList::new();
     list.push(&R0); list.push(&R1);
-    build3!(ans, hints, live => d0 d1 d2);
-    let mut regs = Vec::with_capacity(3);
-    regs.push(d0.registrar()); regs.push(d1.registrar()); regs.push(d2.registrar());
+    let d0 = Dispatch::__verif_unregistered(Stub { i: 0, answer: ans[0], hint: hints[0] });
+    let d1 = Dispatch::__verif_unregistered(Stub { i: 1, answer: ans[1], hint: hints[1] });
+    let mut regs = Vec::with_capacity(2);
+    regs.push(d0.registrar()); regs.push(d1.registrar());
     if !live[0] { drop(d0); }
     if !live[1] { drop(d1); }
-    if !live[2] { drop(d2); }
     rebuild_interest(&list, &mut regs);
+    let live3 = [live[0], live[1], false];
     // dead registrars are pruned, live ones kept
-    let nlive = live[0] as usize + live[1] as usize + live[2] as usize;
-    assert!(regs.len() == nlive, "C01.rebuild_interest.dead_registrars_removed_live_kept");
+    assert!(regs.len() == live[0] as usize + live[1] as usize, "C01.rebuild_interest.dead_registrars_removed_live_kept");
     // every callsite in the list is re-evaluated against exactly the live collectors
-    assert!(CS0.seen.load(AO::SeqCst) == spec_fold(&[ans[0][0], ans[1][0], ans[2][0]], &live), "C01.rebuild_interest.callsite0_is_fold");
-    assert!(CS1.seen.load(AO::SeqCst) == spec_fold(&[ans[0][1], ans[1][1], ans[2][1]], &live), "C01.rebuild_interest.callsite1_is_fold");
+    assert!(CS0.seen.load(AO::SeqCst) == spec_fold(&[ans[0][0], ans[1][0], 0], &live3), "C01.rebuild_interest.callsite0_is_fold");
+    assert!(CS1.seen.load(AO::SeqCst) == spec_fold(&[ans[0][1], ans[1][1], 0], &live3), "C01.rebuild_interest.callsite1_is_fold");
     // MAX_LEVEL = max over live of hint.unwrap_or(TRACE); OFF when nobody is live
     let mut want = 0u8; let mut i = 0;
-    while i < 3 { if live[i] { let h = if hk[i] == 6 { 5 } else { hk[i] }; if h > want { want = h; } } i += 1; }
+    while i < 2 { if live[i] { let h = if hk[i] == 6 { 5 } else { hk[i] }; if h > want { want = h; } } i += 1; }
     assert!(LevelFilter::current() == filter_of(want), "C01.rebuild_interest.max_level_is_max_of_live_hints");
 }
 
